@@ -30,7 +30,10 @@ def run_shard(ctx, spec):
                max_states=spec.get('max_states'))
     elif spec['w'] == 'jumpoff':
         for k in range(spec['n']):
-            ex.jumpoff_scenario(rnd.choice([3, 3, 4, 2]), max_jo=3)
+            if spec.get('deep'):
+                ex.jumpoff_scenario(rnd.choice([3, 3, 4, 4]), max_jo=rnd.choice([3, 4, 5]), scripted=True)
+            else:
+                ex.jumpoff_scenario(rnd.choice([3, 3, 4, 2]), max_jo=3)
     else:
         for k in range(spec['n']):
             ex.complete(rnd.choice(spec.get('nj', [2, 3, 3, 4, 4])), max_reg=rnd.choice([2, 3, 4]), max_jo=3)
@@ -51,11 +54,13 @@ def shards(tier, seed):
         s += [{'w': 'bfs', 'nj': 3, 'reg': 1, 'jo': 1, 'i': i, 'n': 4} for i in range(4)]
         s += [{'w': 'random', 'n': 500, 'i': 50 + i} for i in range(6)]
         s += [{'w': 'jumpoff', 'n': 700, 'i': 80 + i} for i in range(6)]
+        s += [{'w': 'jumpoff', 'n': 700, 'i': 90 + i, 'deep': True} for i in range(4)]
         return s
     s = [{'w': 'bfs', 'nj': 2, 'reg': 3, 'jo': 2, 'i': i, 'n': 32, 'split': 4, 'max_states': 150000} for i in range(32)]
     s += [{'w': 'bfs', 'nj': 3, 'reg': 2, 'jo': 2, 'i': i, 'n': 48, 'split': 4, 'max_states': 150000} for i in range(48)]
     s += [{'w': 'random', 'n': 3200, 'i': 200 + i} for i in range(16)]
     s += [{'w': 'jumpoff', 'n': 6000, 'i': 300 + i} for i in range(16)]
+    s += [{'w': 'jumpoff', 'n': 6000, 'i': 320 + i, 'deep': True} for i in range(16)]
     return s
 
 
